@@ -498,7 +498,8 @@ LOOP:
 					ctx = context.WithValue(ctx, ContextKey("StderrBuffer"), stderrBuffer)
 				}
 				var err error
-				for i := 0; i <= v.Retries; i++ {
+				// A task always runs once, a negative number of retries means no retries.
+				for i := 0; i == 0 || i <= v.Retries; i++ {
 					err = v.Task.Fn(ctx, opt, args)
 					if g.bufferOutput {
 						g.bufferMutex.Lock()
